@@ -180,15 +180,21 @@ def main(argv=None):
             if prop not in ent.get('properties', []):
                 continue
             wit = [w for w in ent.get('witnesses', []) if prop == w.get('check') or prop in w.get('checks', ())]
+            def replay_w(w):
+                if w.get('engine') == 'lang':
+                    # a language-level witness (pattern AST, flags, name): the same defect surfaces in many checks
+                    from . import lang
+                    return lang.replay_case(w['case'])
+                return mod.replay(w['case'])
             if ent.get('status') == 'fixed':
                 for w in wit:
-                    ok, detail = mod.replay(w['case'])
+                    ok, detail = replay_w(w)
                     if not ok:
                         fixed_regressions.append((ent, w, detail))
                 continue
             still = False
             for w in wit:
-                ok, detail = mod.replay(w['case'])
+                ok, detail = replay_w(w)
                 if not ok:
                     still = True
             if still or (not wit and ent.get('arm_without_witness')):
